@@ -373,7 +373,7 @@ class Algebra:
             # Give every registration a name of its own, such that it can not replace (or be replaced by) the code
             # of another function with the same __name__, or of one of the built-in operators.
             codegen = wraps(expr)(lambda *args: expr(*args))
-            codegen.__name__ = f'r{next(_registered)}_{expr.__name__}'
+            codegen.__name__ = f'r{next(_registered)}_' + re.sub(r'\W', '_', expr.__name__)  # (a lambda is called <lambda>)
 
             if not symbolic:
                 self.registry[expr] = Registry(name, codegen=codegen, algebra=self)
